@@ -99,6 +99,7 @@ type cTx struct {
 	agentStartFailed bool
 	kc               bool // known-finding family K-c: a timeout callback for this id overlapped the processing of a datagram with this id or this transaction's own Start call
 	kcB              bool // a timeout event for this id began before the transaction's own Start call had completed its first write
+	kcA              bool // a datagram with this id was held / consumed by the reader while a timeout callback for the id was in progress
 	firstWriteOK     bool
 	cbBegun          int
 	reuseOf          int
@@ -407,6 +408,7 @@ func (a *wrapAgent) SetHandler(h stun.Handler) error {
 				e.cur.overlapCB = true
 				if cb.tx != nil {
 					cb.tx.kc = true
+					cb.tx.kcA = true
 				}
 				e.kcSeen = true
 			}
@@ -491,6 +493,7 @@ func (c *simConn) Read(b []byte) (int, error) {
 				if e.cbActive[d.id] > 0 {
 					d.overlapCB = true
 					tx.kc = true
+					tx.kcA = true
 					e.kcSeen = true
 					e.stats["probe_response_in_retransmit_window"]++
 				}
@@ -1979,7 +1982,7 @@ func (e *clientEngine) Finish() *Violation {
 // MatchKnown evaluates known-finding signatures on this run.
 func (e *clientEngine) MatchKnown(sig string, v *Violation) bool {
 	switch sig {
-	case "timeout-callback-overlaps-other-operation-on-same-transaction":
+	case "response-processed-while-transaction-unregistered-for-retransmission":
 		// K-c: the client's handling of an agent timeout event for transaction X
 		// (retransmission path) overlapped the processing of a datagram with id X
 		// or X's own Start call; the violation concerns X (or, for races and
@@ -1987,46 +1990,24 @@ func (e *clientEngine) MatchKnown(sig string, v *Violation) bool {
 		if !e.kcSeen {
 			return false
 		}
-		corrupted := e.r.Sim.PoolStats.DoublePut > 0 || e.kcDoubleRelease
-		explained := map[string]bool{
-			"inflight-to-fallback": true, "response-not-delivered": true, "wrong-transaction": true, // the response meets an unregistered / recycled transaction
-			"handler-after-start-error": true, "start-error-after-handler": true, // the callback completes a transaction that Start rolled back
-		}
-		if e.violTx != nil && e.viol == v {
-			if e.violTx.kc {
-				return explained[v.Class]
-			}
-			// an overlap made two goroutines release the same pooled transaction
-			// object (each believes it owns it): from then on two unrelated
-			// transactions may share one object, and a violation on such an
-			// innocent transaction is a consequence of the finding
-			return corrupted
-		}
-		if e.viol == v && e.violDatagram != nil && e.violDatagram.decodes {
-			if corrupted {
-				return true
-			}
-			if !explained[v.Class] {
-				return false
-			}
-			if e.violDatagram.overlapCB {
-				return true
-			}
-			if tx := e.byID[e.violDatagram.id]; tx != nil {
-				return tx.kc
-			}
+		// Since /repo 8caaba7 (the stale-pointer half of the finding is repaired)
+		// only the benign half is left: while X is unregistered for the
+		// retransmission, a response for X goes to the fallback handler or is
+		// dropped. Nothing else is attributed: every other class, and these two
+		// classes on a transaction or datagram without the overlap, is reported.
+		explained := map[string]bool{"inflight-to-fallback": true, "response-not-delivered": true}
+		if !explained[v.Class] || e.viol != v {
 			return false
 		}
-		if corrupted && e.viol == v {
-			return true
+		if e.violTx != nil {
+			return e.violTx.kcA
 		}
-		if strings.HasPrefix(v.Class, "race:") || strings.HasPrefix(v.Class, "panic") {
-			// races and panics have no subject transaction: attributed when they
-			// involve the pooled transaction object or the callback itself
-			for _, k := range []string{"clientTransaction.", "putClientTransaction", "acquireClientTransaction", "handleAgentCallback", "acc t.", "acc transaction."} {
-				if strings.Contains(v.Msg, k) {
-					return true
-				}
+		if d := e.violDatagram; d != nil && d.decodes {
+			if d.overlapCB {
+				return true
+			}
+			if tx := e.byID[d.id]; tx != nil {
+				return tx.kcA
 			}
 		}
 		return false
